@@ -1270,7 +1270,7 @@ def oracle(case, impl, model):
     if mode == "construct" or (mode == "deser" and not model.get("phase1")):
         cs = model.get("sites", [])
         if len(cs) == len(texts):
-            aligned = [{"top": x["top"], "kind": "named"} for x in cs]
+            aligned = [{"top": x["top"], "kind": "named", "path": x.get("path")} for x in cs]
 
     def own(idx):
         return [aligned[idx]["top"]] if aligned else invalid
@@ -1305,6 +1305,13 @@ def oracle(case, impl, model):
         if not hit:
             lost_keys.append((site_key(idx, t, "no-path:other"),
                               f"message does not begin with a path naming its invalid field {own(idx) if aligned else invalid} (invalid={invalid}): {t!r} [{where}]"))
+        elif aligned and aligned[idx].get("path") is not None:
+            # the constructor's message names the POSITION: the top-level field followed by one suffix per
+            # nesting level down to the first rejected element (computed by Lean `locate` from `validate`)
+            bare = re.sub(r"^" + re.escape(cls_name) + r"\.", "", p)
+            if bare != aligned[idx]["path"]:
+                fails.append(("wrong-position:suffix-chain",
+                              f"the path {p!r} names field {hit[0]} but not the rejected position {aligned[idx]['path']!r}: {t!r} [{where}]"))
     # (3) every ErrorInfo carries such a field and a non-empty problem
     for idx, i in enumerate(infos):
         hit = [n for n in (own(idx) if idx < len(texts) else invalid) if n in invalid and names_field(i.get("field"), cls_name, n)]
